@@ -16,6 +16,10 @@ B2  every execution that differs from M, plus a sample of conforming ones, is ev
     rejected => VIOLATION, accepted only through a listed deviation step => KNOWN-FINDING,
     accepted => MODEL-DRIFT note.
 Client and hosted observations of the same well-behaved sequence are also compared with each other.
+The IO mode of the downlinks is part of the explored space: the inputs include "drop_handles" (every
+write handle dropped, at any point, also before the first notification) and "out_fail" (the reader of
+the downlink's output channel dropped; later own writes then fail), each seen by the task either on its
+own or together with the next input (cfg.env_settle); all laws must hold unchanged afterwards.
 """
 import json, os, random
 from vlib import core
@@ -36,7 +40,9 @@ MAX_REPLAY_FILES = 20
 
 
 def seq_configs(tier):
-    """(a) exhaustive enumeration of input sequences by TLC (history in the state)."""
+    """(a) exhaustive enumeration of input sequences by TLC (history in the state).
+    EnvFaults adds the environment inputs "every write handle dropped" / "output channel failed" at any
+    point of the sequence (the client's run_io then runs its read-only copy of the read loop)."""
     if tier == "quick":
         return [dict(Kinds=KINDS, EwnsSet=BOOLS, TouSet=BOOLS, NK=2, NV=2, Counts={1}, LocalWrites=False,
                      Illegal=False, EnvFaults=True, MaxLen=4),
@@ -47,9 +53,11 @@ def seq_configs(tier):
             dict(Kinds={"map"}, EwnsSet=BOOLS, TouSet={False}, NK=2, NV=2, Counts={1, 2}, LocalWrites=True,
                  Illegal=False, EnvFaults=True, MaxLen=4),
             dict(Kinds={"map"}, EwnsSet=BOOLS, TouSet={False}, NK=3, NV=1, Counts={0, 1, 2, 3}, LocalWrites=False,
-                 Illegal=False, EnvFaults=True, MaxLen=5),
+                 Illegal=False, EnvFaults=False, MaxLen=5),
             dict(Kinds={"value", "event"}, EwnsSet=BOOLS, TouSet=BOOLS, NK=1, NV=2, Counts=set(), LocalWrites=True,
-                 Illegal=False, EnvFaults=True, MaxLen=7)]
+                 Illegal=False, EnvFaults=True, MaxLen=6),
+            dict(Kinds={"value", "event"}, EwnsSet=BOOLS, TouSet=BOOLS, NK=1, NV=2, Counts=set(), LocalWrites=True,
+                 Illegal=False, EnvFaults=False, MaxLen=7)]
 
 
 def graph_configs(tier):
